@@ -1041,7 +1041,10 @@ static void gen_expr(Node *node) {
     return;
   }
   case ND_FUNCALL: {
-    if (node->lhs->kind == ND_VAR && !strcmp(node->lhs->var->name, "alloca")) {
+    // The built-in alloca, unless the program defines the name itself
+    if (node->lhs->kind == ND_VAR && !strcmp(node->lhs->var->name, "alloca") &&
+        !node->lhs->var->is_local && node->lhs->var->ty->kind == TY_FUNC &&
+        !node->lhs->var->is_definition) {
       gen_expr(node->args);
       println("  mov %%rax, %%rdi");
       builtin_alloca();
